@@ -5,7 +5,9 @@ ID=$1; P=$2; T=${3:-quick}
 D=/tmp/sw/$ID.$$
 git -C /repo worktree add --detach "$D" HEAD -f >/dev/null 2>&1
 (cd "$D" && git apply /verif/seeded/$ID/patch.diff) || { echo "PATCH DID NOT APPLY"; git -C /repo worktree remove --force "$D"; exit 2; }
-PVMC_REPO="$D" /verif/check.sh "$P" "$T" 2>&1 | grep "signature\|^$P \|HARNESS\|^VIOLATION" | cut -c1-260 | head -${LINES_MAX:-14}
+V=/tmp/vs.$$; rm -rf $V; mkdir -p $V
+rsync -a --exclude .git --exclude bin --exclude seeded --exclude evidence --exclude replays --exclude 'quick_*' /verif/ $V/
+mkdir -p $V/evidence
+PVMC_REPO="$D" $V/check.sh "$P" "$T" 2>&1 | grep "signature\|^$P \|HARNESS\|^VIOLATION" | cut -c1-260 | head -${LINES_MAX:-14}
 git -C /repo worktree remove --force "$D"
-rm -rf /verif/bin/mc-alt-* /verif/bin/pvmc-alt-* /verif/replays
-git -C /verif checkout -- evidence 2>/dev/null
+rm -rf $V
